@@ -34,6 +34,7 @@ type RespPlan struct {
 	Err          *ErrSpec    `json:"err,omitempty"`
 	ErrInHeaders bool        `json:"err_in_headers,omitempty"` // trailers-only where the protocol allows it
 	TrailerStyle string      `json:"trailer_style,omitempty"`  // announce | prefix
+	AnnounceCase string      `json:"announce_case,omitempty"`  // spelling of the names in the Trailer header: "" canonical | lower | upper | given | lines (one header line per name)
 	DeclareCL    string      `json:"declare_cl,omitempty"`     // "" | exact | +N | -N | =N
 	WriteMode    string      `json:"write_mode,omitempty"`     // whole | frames | prefix-payload | sizes
 	WriteSizes   []int       `json:"write_sizes,omitempty"`    // cyclic, for mode sizes
@@ -66,6 +67,7 @@ type BackendPlan struct {
 	PanicAt   string   `json:"panic_at,omitempty"` // before-headers | after-headers | mid-body
 	LateIO    bool     `json:"late_io,omitempty"`  // a leaked goroutine touches body and writer after the handler returned
 	ReadAfter bool     `json:"read_after,omitempty"` // keep reading the request after responding
+	SplitReader bool   `json:"split_reader,omitempty"` // pingpong: a second goroutine of the handler does the reading (reverse proxies, grpc-go's ServeHTTP transport)
 }
 
 type BackendObs struct {
@@ -889,6 +891,37 @@ func (h *backendHandler) respond(st *rpcState, obs *BackendObs, rw http.Response
 	_ = rp
 }
 
+// announceTrailers sets the Trailer header the way the plan spells it; field names are case-insensitive, so every
+// spelling announces the same trailers.
+func announceTrailers(hd http.Header, names []string, style string) {
+	seen := map[string]bool{}
+	var keys []string
+	for _, n := range names {
+		k := http.CanonicalHeaderKey(n)
+		if seen[k] {
+			continue
+		}
+		seen[k] = true
+		switch style {
+		case "lower":
+			k = strings.ToLower(n)
+		case "upper":
+			k = strings.ToUpper(n)
+		case "given":
+			k = n
+		}
+		keys = append(keys, k)
+	}
+	if len(keys) == 0 {
+		return
+	}
+	if style == "lines" {
+		hd["Trailer"] = keys
+		return
+	}
+	hd.Set("Trailer", strings.Join(keys, ", "))
+}
+
 func (h *backendHandler) writeResponse(st *rpcState, obs *BackendObs, rw http.ResponseWriter, rr *renderedResp, scripted bool) {
 	bp := &st.plan.Backend
 	rp := &bp.Resp
@@ -899,16 +932,11 @@ func (h *backendHandler) writeResponse(st *rpcState, obs *BackendObs, rw http.Re
 	}
 	announce := rp.TrailerStyle == "announce"
 	if announce && len(rr.trailers) > 0 {
-		seen := map[string]bool{}
-		var keys []string
+		var names []string
 		for _, kv := range rr.trailers {
-			k := http.CanonicalHeaderKey(kv[0])
-			if !seen[k] {
-				seen[k] = true
-				keys = append(keys, k)
-			}
+			names = append(names, kv[0])
 		}
-		hd.Set("Trailer", strings.Join(keys, ", "))
+		announceTrailers(hd, names, rp.AnnounceCase)
 	}
 	if rp.ExplicitHdr || rr.status != 200 || len(rr.body) == 0 {
 		rw.WriteHeader(rr.status)
@@ -925,6 +953,7 @@ func (h *backendHandler) writeResponse(st *rpcState, obs *BackendObs, rw http.Re
 		cut = true
 	}
 	st.respLen = len(rr.body)
+	st.respBounds, st.respPrefixes = rr.bounds, rr.prefixes
 	st.respEndLen = 0
 	if obs.Stream && obs.Protocol != ProtoGRPC && len(rr.bounds) > rr.nmsgs && len(rr.prefixes) == len(rr.bounds) {
 		last := len(rr.bounds) - 1
@@ -1039,12 +1068,27 @@ func (h *backendHandler) pingpong(st *rpcState, obs *BackendObs, rw http.Respons
 	headersOut := false
 	md := h.schema.methodByFullName(obs.RPCMethod)
 	_ = md
+	split := st.plan.Backend.SplitReader
+	readerDone := !split
+	if split {
+		w.Spawn(st.name+".hreader", func() {
+			defer func() { readerDone = true }()
+			rd.readAll()
+		})
+		defer w.Block("handler.join", func() bool { return readerDone })
+	}
 	for {
 		// read until one more complete frame is available or the body ends
 		for {
 			frames, _ := splitFrames(obs.Body)
 			if len(frames) > sent || rd.done {
 				break
+			}
+			if split {
+				if !w.Block("hwriter.await-ping", func() bool { fr, _ := splitFrames(obs.Body); return len(fr) > sent || rd.done }) {
+					break
+				}
+				continue
 			}
 			rd.readSome()
 		}
@@ -1054,7 +1098,11 @@ func (h *backendHandler) pingpong(st *rpcState, obs *BackendObs, rw http.Respons
 		}
 		if sent >= len(rp.Msgs) {
 			// nothing more to say; drain
-			rd.readAll()
+			if split {
+				w.Block("hwriter.drain", func() bool { return rd.done })
+			} else {
+				rd.readAll()
+			}
 			break
 		}
 		rr := h.renderResponse(st, obs, nil, []MsgSpec{rp.Msgs[sent]})
